@@ -175,6 +175,10 @@ def eq_values(I, st, a, b):
         if ea.kind == "set":
             return set(ea.items) == set(eb.items)
         if ea.kind == "obj":
+            if a.id != b.id and (keyed._user_eq(I, st, a) is not None or keyed._user_eq(I, st, b) is not None):
+                # this function is the == of container elements (tuple / list ==, list.index / count / remove ...): CPython
+                # calls the objects' __eq__ there, which a pure term cannot do; identity would be a different answer
+                raise Unsupported("== of objects with a user-defined __eq__ inside a container comparison")
             if a.id != b.id and ("__list__" in ea.attrs or "__list__" in eb.attrs):
                 raise Unsupported("== on instances of a list subclass")
             if a.id != b.id and ("__dictdata__" in ea.attrs or "__dictdata__" in eb.attrs):
@@ -190,6 +194,8 @@ def eq_values(I, st, a, b):
             raise Unsupported("== on symbolic-length lists")
         raise Unsupported("== on %s" % ea.kind)
     if isinstance(a, Ref) or isinstance(b, Ref):
+        if keyed._user_eq(I, st, a) is not None or keyed._user_eq(I, st, b) is not None:
+            raise Unsupported("== of an object with a user-defined __eq__ and another value inside a container comparison")
         return False
     if isinstance(a, (ClassVal, BuiltinClass, FuncVal, ModuleVal)) or isinstance(b, (ClassVal, BuiltinClass, FuncVal, ModuleVal)):
         return a == b if type(a) is type(b) else False
@@ -284,6 +290,35 @@ def obj_has(I, st, v, name):
     return None
 
 
+def _is_not_implemented(r):
+    return isinstance(r, Opaque) and r.desc == "NotImplemented"
+
+
+def _obj_cls(st, v):
+    return st.get(v).cls if isinstance(v, Ref) and st.get(v).kind == "obj" else None
+
+
+def _right_first(I, st, a, b, name):
+    """CPython tries the right operand's (reflected) method before the left operand's when type(b) is a proper subclass of
+    type(a) and provides the method"""
+    ca, cb = _obj_cls(st, a), _obj_cls(st, b)
+    if ca is None or cb is None or ca == cb or not I.is_subclass(cb, ca):
+        return False
+    return I.class_lookup(cb, name)[0] is not None
+
+
+def _total_ordering(I, st, v):
+    c = _obj_cls(st, v)
+    if c is None:
+        return False
+    for k in I.mro(c):
+        if isinstance(k, ClassVal):
+            for d in k.node.decorator_list:
+                if (d.attr if isinstance(d, ast.Attribute) else _b.getattr(d, "id", None)) == "total_ordering":
+                    return True
+    return False
+
+
 def compare(I, st, op, a, b):
     """yield (st, python bool | z3 Bool | Exc)"""
     from . import npmodel
@@ -301,14 +336,32 @@ def compare(I, st, op, a, b):
         yield from npmodel.nd_compare(I, st, op, a, b)
         return
     if op in ("Eq", "NotEq"):
+        if op == "NotEq" and (obj_has(I, st, a, "__ne__") is not None or obj_has(I, st, b, "__ne__") is not None):
+            # a user-defined __ne__ is what != calls (only the DEFAULT __ne__ inverts __eq__)
+            if _right_first(I, st, a, b, "__ne__") or obj_has(I, st, a, "__ne__") is None:
+                a, b = b, a
+            m = obj_has(I, st, a, "__ne__")
+            for st1, r in I.call(m, [a, b], {}, st):
+                if isinstance(r, Exc):
+                    yield st1, r
+                elif _is_not_implemented(r):
+                    raise Unsupported("__ne__ returned NotImplemented")
+                else:
+                    yield st1, I.truth(r, st1)
+            return
         m = obj_has(I, st, a, "__eq__")
-        if m is None and obj_has(I, st, b, "__eq__") is not None:
+        if (m is None and obj_has(I, st, b, "__eq__") is not None) or _right_first(I, st, a, b, "__eq__"):
+            # the right operand's __eq__ is the one to call when the left has none, and FIRST when the right operand's
+            # class is a proper subclass of the left operand's class
             a, b = b, a
             m = obj_has(I, st, a, "__eq__")
         if m is not None:
             for st1, r in I.call(m, [a, b], {}, st):
                 if isinstance(r, Exc):
                     yield st1, r
+                elif _is_not_implemented(r):
+                    # CPython then asks the other operand and finally falls back to identity
+                    raise Unsupported("__eq__ returned NotImplemented")
                 else:
                     t = I.truth(r, st1)
                     yield st1, (t if op == "Eq" else znot(t))
@@ -316,11 +369,64 @@ def compare(I, st, op, a, b):
         r = eq_values(I, st, a, b)
         yield st, (r if op == "Eq" else znot(r))
         return
-    # ordering
-    dunder = {"Lt": "__lt__", "LtE": "__le__", "Gt": "__gt__", "GtE": "__ge__"}[op]
+    # ordering: a.__op__(b); if that is missing (or returns NotImplemented) the REFLECTED method of b: a < b -> b.__gt__(a);
+    # the reflected method comes first when type(b) is a proper subclass of type(a); functools.total_ordering derives the
+    # missing methods from __lt__ and __eq__
+    dunders = {"Lt": "__lt__", "LtE": "__le__", "Gt": "__gt__", "GtE": "__ge__"}
+    dunder = dunders[op]
+    rdunder = dunders[{"Lt": "Gt", "LtE": "GtE", "Gt": "Lt", "GtE": "LtE"}[op]]
     m = obj_has(I, st, a, dunder)
-    if m is not None:
+    mr = obj_has(I, st, b, rdunder)
+    if (m is None and _total_ordering(I, st, a)) or (mr is None and _total_ordering(I, st, b)):
+        if m is not None:
+            pass
+        elif _total_ordering(I, st, a) and obj_has(I, st, a, "__lt__") is not None and not isinstance(obj_has(I, st, a, "__eq__"), type(None)) and all(
+                obj_has(I, st, a, d) is None for d in ("__le__", "__gt__", "__ge__")):
+            lt = obj_has(I, st, a, "__lt__")
+            for st1, r in I.call(lt, [a, b], {}, st):
+                if isinstance(r, Exc):
+                    yield st1, r
+                    continue
+                if _is_not_implemented(r):
+                    raise Unsupported("__lt__ returned NotImplemented under total_ordering")
+                for st2, isLt in I.branch(st1, I.truth(r, st1)):
+                    if op == "GtE":  # not (a < b)
+                        yield st2, (not isLt)
+                    elif op == "LtE":  # a < b or a == b
+                        if isLt:
+                            yield st2, True
+                        else:
+                            yield from compare(I, st2, "Eq", a, b)
+                    else:  # Gt: not (a < b) and a != b
+                        if isLt:
+                            yield st2, False
+                        else:
+                            yield from compare(I, st2, "NotEq", a, b)
+            return
+        else:
+            raise Unsupported("functools.total_ordering: comparison derived from a method other than __lt__")
+    first_reflected = mr is not None and _right_first(I, st, a, b, rdunder)
+    if m is not None and not first_reflected:
         for st1, r in I.call(m, [a, b], {}, st):
+            if not isinstance(r, Exc) and _is_not_implemented(r):
+                if mr is None:
+                    yield st1, exc("TypeError", "'%s' not supported between %r and %r" % (op, a, b))
+                    continue
+                for st2, r2 in I.call(mr, [b, a], {}, st1):
+                    if not isinstance(r2, Exc) and _is_not_implemented(r2):
+                        yield st2, exc("TypeError", "'%s' not supported between %r and %r" % (op, a, b))
+                    else:
+                        yield st2, (r2 if isinstance(r2, Exc) else I.truth(r2, st2))
+                continue
+            yield st1, (r if isinstance(r, Exc) else I.truth(r, st1))
+        return
+    if mr is not None:
+        for st1, r in I.call(mr, [b, a], {}, st):
+            if not isinstance(r, Exc) and _is_not_implemented(r):
+                if m is not None:
+                    raise Unsupported("reflected comparison returned NotImplemented")
+                yield st1, exc("TypeError", "'%s' not supported between %r and %r" % (op, a, b))
+                continue
             yield st1, (r if isinstance(r, Exc) else I.truth(r, st1))
         return
     if isinstance(a, tuple) and isinstance(b, tuple):
@@ -467,7 +573,7 @@ def contains(I, st, container, item):
             yield st, disj(parts)
             return
         if e.kind == "set":
-            yield st, I.hashable(item) in e.items
+            yield st, I.set_elem(st, item) in e.items
             return
         if e.kind == "dict":
             if symmode(I, st, e, item):
@@ -1167,19 +1273,38 @@ def obj_binop(I, st, op, a, b, inplace=False, reflected=False):
             return
         yield from I.call(m, [b, a], {}, st)
         return
-    m = None
-    if inplace:
-        m = obj_has(I, st, a, "__i%s__" % nm)
-    if m is None:
-        m = obj_has(I, st, a, "__%s__" % nm)
-    if m is None:
-        m2 = obj_has(I, st, b, "__r%s__" % nm)
-        if m2 is not None:
-            yield from I.call(m2, [b, a], {}, st)
+    # CPython: a.__iop__(b) for an augmented assignment, then a.__op__(b), then b.__rop__(a); each step is skipped when the
+    # method is missing or returns NotImplemented; TypeError when nothing is left.  b.__rop__ is tried BEFORE a.__op__ when
+    # type(b) is a proper subclass of type(a) that overrides the reflected method.
+    cands = []
+    if inplace and obj_has(I, st, a, "__i%s__" % nm) is not None:
+        cands.append((obj_has(I, st, a, "__i%s__" % nm), [a, b]))
+    m = obj_has(I, st, a, "__%s__" % nm)
+    m2 = obj_has(I, st, b, "__r%s__" % nm)
+    ca, cb = _obj_cls(st, a), _obj_cls(st, b)
+    if ca is not None and cb is not None and ca == cb:
+        m2 = None  # same type: the reflected method is not tried
+    r_first = False
+    if m2 is not None and ca is not None and cb is not None and ca != cb and I.is_subclass(cb, ca):
+        r_first = I.class_lookup(cb, "__r%s__" % nm)[1] != I.class_lookup(ca, "__r%s__" % nm)[1]
+    if r_first:
+        cands.append((m2, [b, a]))
+    if m is not None:
+        cands.append((m, [a, b]))
+    if m2 is not None and not r_first:
+        cands.append((m2, [b, a]))
+
+    def attempt(st1, i):
+        if i == len(cands):
+            yield st1, exc("TypeError", "unsupported operand")
             return
-        yield st, exc("TypeError", "unsupported operand")
-        return
-    yield from I.call(m, [a, b], {}, st)
+        for st2, r in I.call(cands[i][0], cands[i][1], {}, st1):
+            if not isinstance(r, Exc) and _is_not_implemented(r):
+                yield from attempt(st2, i + 1)
+            else:
+                yield st2, r
+
+    yield from attempt(st, 0)
 
 
 def set_binop(I, st, op, ea, eb):
